@@ -851,6 +851,24 @@ class GenFunctions(object):
         # Create additional functions needed for wrapping
         ordered_functions = []
         for method in functions:
+            if method.template_arguments and method._has_default_arg:
+                # Instantiate first, then create the default-argument
+                # variants of each instantiation.
+                ordered_functions.append(method)
+                method._overloaded = True
+                clones = []
+                self.template_function(method, clones)
+                for clone in clones:
+                    variants = []
+                    self.has_default_args(clone, variants)
+                    variants.append(clone)
+                    # Template clones are not part of the overload
+                    # numbering below; number the variants here.
+                    for i, variant in enumerate(variants):
+                        if not variant.fmtdict.inlocal("function_suffix"):
+                            variant.fmtdict.function_suffix = "_{}".format(i)
+                    ordered_functions.extend(variants)
+                continue
             if method._has_default_arg:
                 self.has_default_args(method, ordered_functions)
             ordered_functions.append(method)
